@@ -14,6 +14,14 @@ direct oracle:  independent of the model and of the object hierarchy: every read
                 type with ones poked at the object, to_bits()); every (non-ff writer, other reader) pair sharing a bit
                 must be in all_constraints writer->reader unless the reverse pair is explicit (then the reverse must be
                 there); every explicit pair must be there
+family (g):     constants tied to PARTS of signals (gen_const / check_const).  What a constant net block writes is NOT read
+                from genblk_writes: it comes from the design description (Extract fix_writes), for the model input and for
+                the bit-sharing oracle above alike; and a second oracle uses no metadata of the pass at all: the (constant
+                net, reader) pairs sharing a bit are derived from the description, the blocks are found by generated name /
+                source name, and under every pass group (Dynamic, Simple, HeuristicTopo, Mamba2020, Unroll) the constant
+                net block must be placed before each such reader in the real schedule, must be entered before it in the
+                first evaluation (sys.setprofile), and the reader outputs after the FIRST sim_eval_combinational() /
+                sim_tick() (no reset) must equal the reference assembled from the description
 """
 import importlib.util, itertools, os, re, sys
 
@@ -48,7 +56,13 @@ RULE = ('value-constraint clause: (a) rtlgen designs (structs, nested structs, l
         '(e) library components (RTL queues with interfaces and bitstruct messages, arbiters, crossbar, register file); (c) shape designs: one component, Bits and nested-bitstruct wires with list fields, random written objects '
         '(single writer per bit) and random read objects (whole / field / nested field / list element / slice / variable '
         'index), nets, ff blocks, explicit constraints; (d) table: for each written object of a fixed universe, readers of '
-        'every object of the universe. case = one design; non-trivial = at least one implicit pair')
+        'every object of the universe; (g) constants tied to parts of signals: a top component and an optional child, every subject '
+        'signal (Bits8/12, struct, nested struct; Wire / OutPort / child InPort driven by the parent) cut into disjoint slices / '
+        'single bits / fields / nested fields / slices of fields, each driven by a constant net (pairwise distinct constants, int, '
+        'Bits or struct instance, `//=` or connect in either order), an update block, a net from a part of an earlier signal, or '
+        'nothing; 2-5 readers per signal (update block / net / ff; in the component or in the parent) of the whole signal, '
+        'containing / contained / partially overlapping slices, bits, the parent struct, the field, 70% aimed at a constant part; '
+        'each (design, pass group) runs eval-first or tick-first. case = one design; non-trivial = at least one implicit pair')
 
 _uid = itertools.count()
 
@@ -68,7 +82,7 @@ def child_names(Type):
 
 class Extract:
   """elaborated top -> numbered blocks / objects, model request, real result"""
-  def __init__(self, top):
+  def __init__(self, top, fix_writes=None):
     from pymtl3.dsl.Connectable import Signal, InPort, OutPort, Wire
     from pymtl3.passes.sim.GenDAGPass import GenDAGPass
     self.Signal = Signal
@@ -85,6 +99,8 @@ class Extract:
     for data, tgt in ((top._dsl.all_upblk_reads, self.reads), (top._dag.genblk_reads, self.reads),
                       (top._dsl.all_upblk_writes, self.writes), (top._dag.genblk_writes, self.writes)):
       for blk, objs in data.items(): tgt.setdefault(blk, []).extend(objs)
+    # family (g): the objects a constant net block writes come from the design description, not from genblk_writes
+    if fix_writes is not None: self.writes.update(fix_writes(top))
     blks = set(self.reads) | set(self.writes) | set(top._dag.final_upblks)
     for (a, b) in self.uu: blks |= {a, b}
     for d in (self.rdu, self.wru):
@@ -120,7 +136,7 @@ class Extract:
     while x._dsl.top_level_signal is not x:
       p = x._dsl.parent_obj
       if not isinstance(p, self.Signal) or x._dsl.slice is not None: raise InfraError(f'unexpected parent chain of {o!r}')
-      name = x._dsl._my_name + ''.join(f'[{i}]' for i in x._dsl._my_indices)
+      name = x._dsl._my_name + ''.join(f'[{i}]' for i in (x._dsl._my_indices or []))
       names = child_names(p._dsl.Type)
       if name not in names: raise InfraError(f'{o!r}: {name} is not a sub-signal name of {p._dsl.Type}')
       fields.append(names.index(name))
@@ -159,7 +175,7 @@ class Extract:
     if x._dsl.slice is not None: sl = (x._dsl.slice.start, x._dsl.slice.stop); x = x._dsl.parent_obj
     steps = []
     while x._dsl.top_level_signal is not x:
-      steps.append((x._dsl._my_name, list(x._dsl._my_indices))); x = x._dsl.parent_obj
+      steps.append((x._dsl._my_name, list(x._dsl._my_indices or []))); x = x._dsl.parent_obj
     steps.reverse()
     T = x._dsl.Type
     def ones(v, sl=None):
@@ -607,6 +623,353 @@ def check_hier(ck, src, clsname, spec, lines, metas, verbose=False):
     sys.modules.pop(mod.__name__, None)
   return bad
 
+# (g) constants tied to PARTS of signals: the net blocks of constant writers ------------------------
+CN_TYPES = '''from pymtl3 import *
+
+@bitstruct
+class CnIn{u}:
+  p: Bits4
+  q: Bits2
+
+@bitstruct
+class CnSt{u}:
+  kind: Bits4
+  inner: CnIn{u}
+  len_: Bits6
+'''
+# generator-side layout of the two struct types (first field = most significant); the value oracle checks it against
+# the real packed values
+CN_FIELDS = {'St': [('.kind', 12, 16, 4), ('.inner', 6, 12, 'In'), ('.inner.p', 8, 12, 4), ('.inner.q', 6, 8, 2), ('.len_', 0, 6, 6)],
+             'In': [('.p', 2, 6, 4), ('.q', 0, 2, 2)]}
+CN_WIDTH = {'St': 16, 'In': 6}
+CN_MODES = ['eval', 'tick']
+cn_w = lambda t: t if isinstance(t, int) else CN_WIDTH[t]
+
+def cn_sub(rng, suf, lo, w):
+  """a proper slice / single bit of a Bits part (suf, lo, width w >= 2)"""
+  if rng.random() < 0.35:
+    a = rng.randrange(w)
+    return (f'{suf}[{a}]' if rng.random() < 0.6 else f'{suf}[{a}:{a+1}]', lo + a, lo + a + 1, 1)
+  while True:
+    a = rng.randint(0, w - 1); b = rng.randint(a + 1, w)
+    if (a, b) != (0, w): return (f'{suf}[{a}:{b}]', lo + a, lo + b, b - a)
+
+def cn_random_part(rng, typ):
+  """(suffix, lo, hi, type of the part) of a signal of type typ"""
+  W = cn_w(typ)
+  if isinstance(typ, int):
+    return ('', 0, W, W) if rng.random() < 0.15 else cn_sub(rng, '', 0, W)
+  if rng.random() < 0.2: return ('', 0, W, typ)
+  suf, lo, hi, t = rng.choice(CN_FIELDS[typ])
+  if isinstance(t, int) and t >= 2 and rng.random() < 0.4: return cn_sub(rng, suf, lo, t)
+  return (suf, lo, hi, t)
+
+def cn_pieces(rng, typ):
+  """disjoint parts of a signal of type typ (candidates for a driver each)"""
+  out = []
+  def leaf(suf, lo, w):
+    if w >= 2 and rng.random() < (0.35 if suf else 1.0):
+      cuts = sorted(rng.sample(range(1, w), rng.randint(1, min(3, w - 1))))
+      bs = [0] + cuts + [w]
+      for a, b in zip(bs, bs[1:]):
+        if b - a == 1 and rng.random() < 0.5: out.append((f'{suf}[{a}]', lo + a, lo + b, 1))
+        else: out.append((f'{suf}[{a}:{b}]', lo + a, lo + b, b - a))
+    else: out.append((suf, lo, lo + w, w))
+  if isinstance(typ, int): leaf('', 0, typ)
+  elif typ == 'In': leaf('.p', 2, 4); leaf('.q', 0, 2)
+  else:
+    leaf('.kind', 12, 4); leaf('.len_', 0, 6)
+    if rng.random() < 0.35: out.append(('.inner', 6, 12, 'In'))
+    else: leaf('.inner.p', 8, 4); leaf('.inner.q', 6, 2)
+  return out
+
+def gen_const(rng):
+  """top component T (optionally with a child C).  Every subject signal (Wire / OutPort of its component; InPort of the
+  child, driven by the parent) is cut into disjoint parts, each driven by a CONSTANT net, by an update block (from a
+  slice of in_), by a net from a part of an earlier signal, or by nothing.  Readers (update blocks, nets, ff blocks; in
+  the component itself, or in the parent for a child's OutPort) read the whole signal, slices, single bits, the parent
+  struct, fields - most of them chosen to overlap a constant part.  Returns (source, top class, spec); the spec is the
+  design description every oracle of check_const is derived from."""
+  u = next(_uid)
+  tname = lambda t: f'Bits{t}' if isinstance(t, int) else f'Cn{t}{u}'
+  used_consts = set()
+  sigs, readers, wblks = [], [], []           # sigs in evaluation order (child first)
+  has_child = rng.random() < 0.6
+  nid = itertools.count()
+  def new_sig(comp, name, ctor, typ, driver_comp):
+    sg = dict(key=('c.' if comp == 'C' else '') + name, comp=comp, name=name, ctor=ctor, typ=typ, W=cn_w(typ), drv_comp=driver_comp, pieces=[])
+    earlier = [x for x in sigs if (x['comp'] == comp or (comp == 'T' and x['comp'] == 'C' and x['ctor'] == 'OutPort')) and driver_comp == comp]
+    for (suf, lo, hi, t) in cn_pieces(rng, typ):
+      r = rng.random()
+      drv = None
+      if r < 0.55:
+        w = hi - lo
+        for _ in range(6):
+          v = rng.randrange(1 << w) if rng.random() < 0.85 else 0
+          if (w, v) not in used_consts and (t, v) not in used_consts: break
+        else: v = None
+        if v is not None:
+          used_consts.add((w, v)); used_consts.add((t, v))
+          drv = dict(kind='const', value=v, cid=next(nid))
+      elif r < 0.75 and isinstance(t, int):
+        drv = dict(kind='comp', k=rng.randint(0, 16 - (hi - lo)), blk=f'{driver_comp}_w{next(nid)}')
+      elif r < 0.9 and isinstance(t, int) and earlier:
+        src = rng.choice(earlier); w = hi - lo
+        for _ in range(8):
+          ssuf, slo, shi, st = cn_random_part(rng, src['typ'])
+          if shi - slo == w and isinstance(st, int): break
+        else: ssuf = None
+        if ssuf is not None and not any(p['drv'] and p['drv']['kind'] in ('const', 'net') and (p['lo'], p['hi']) == (slo, shi) for p in src['pieces']) \
+           and any(p['drv'] and p['lo'] < shi and slo < p['hi'] for p in src['pieces']):
+          drv = dict(kind='net', src=src['key'], ssuf=ssuf, slo=slo, shi=shi, rid=f'n{next(nid)}')
+      sg['pieces'].append(dict(suf=suf, lo=lo, hi=hi, typ=t, drv=drv))
+    sigs.append(sg)
+    return sg
+  def add_readers(sg, comp):
+    consts = [p for p in sg['pieces'] if p['drv'] and p['drv']['kind'] == 'const']
+    for _ in range(rng.randint(2, 5)):
+      part = cn_random_part(rng, sg['typ'])
+      if consts and rng.random() < 0.7:
+        tgt = rng.choice(consts)
+        for _ in range(10):
+          if part[1] < tgt['hi'] and tgt['lo'] < part[2]: break
+          part = cn_random_part(rng, sg['typ'])
+      suf, lo, hi, t = part
+      k = rng.random()
+      kind = 'blk' if k < 0.55 else ('net' if k < 0.88 else 'ff')
+      if kind == 'net' and (any(p['drv'] and p['drv']['kind'] in ('const', 'net') and (p['lo'], p['hi']) == (lo, hi) for p in sg['pieces'])
+                            or not any(p['drv'] and p['lo'] < hi and lo < p['hi'] for p in sg['pieces'])):
+        kind = 'blk'      # a net from exactly a constant part joins the constant's net: no block of its own
+      i = next(nid)
+      readers.append(dict(rid=f'r{i}', comp=comp, kind=kind, sig=sg['key'], suf=suf, lo=lo, hi=hi, typ=t, out=f'o{i}', blk=f'{comp}_rd{i}'))
+  if has_child:
+    for i in range(rng.randint(0, 2)): add_readers(new_sig('C', f'ci{i}', 'InPort', rng.choice([8, 12, 'St', 'In']), 'T'), 'C')
+    for i in range(rng.randint(1, 2)):
+      sg = new_sig('C', f'cx{i}', rng.choice(['Wire', 'OutPort', 'OutPort']), rng.choice([8, 12, 'St', 'St', 'In']), 'C')
+      add_readers(sg, 'C')
+      if sg['ctor'] == 'OutPort' and rng.random() < 0.7: add_readers(sg, 'T')
+  for i in range(rng.randint(1, 3) if has_child else rng.randint(2, 3)):
+    add_readers(new_sig('T', f'tx{i}', rng.choice(['Wire', 'Wire', 'OutPort']), rng.choice([8, 12, 'St', 'St', 'In']), 'T'), 'T')
+  # ---- source
+  bykey = {sg['key']: sg for sg in sigs}
+  def ref(comp, key, suf):       # expression for signal `key` seen from component comp
+    sg = bykey[key]
+    return ('s.' if sg['comp'] == comp else 's.c.') + sg['name'] + suf
+  def const_text(p):
+    v, t = p['drv']['value'], p['typ']
+    if t == 'In': return f'CnIn{u}( {v >> 2}, {v & 3} )'
+    return rng.choice([str(v), hex(v), f'Bits{t}( {v} )'])
+  def body(comp):
+    L = []
+    for sg in sigs:
+      if sg['comp'] == comp: L.append(f"    s.{sg['name']} = {sg['ctor']}( {tname(sg['typ'])} )")
+    if comp == 'T' and has_child: L += [f'    s.c = CnC{u}()', '    s.c.in_ //= s.in_']
+    stm = []
+    for sg in sigs:
+      if sg['drv_comp'] != comp: continue
+      for p in sg['pieces']:
+        d = p['drv']
+        if not d: continue
+        x = ref(comp, sg['key'], p['suf'])
+        if d['kind'] == 'const':
+          c = const_text(p)
+          simple = p['suf'].count('.') == 0 or (p['suf'].count('.') == 1 and '[' not in p['suf'])
+          k = rng.random()
+          stm.append([f'    {x} //= {c}'] if (simple and k < 0.5) else [f'    connect( {x}, {c} )'] if k < 0.8 else [f'    connect( {c}, {x} )'])
+        elif d['kind'] == 'comp':
+          stm.append(['    @update', f"    def {d['blk']}():", f"      {x} @= s.in_[{d['k']}:{d['k'] + p['hi'] - p['lo']}]"])
+        else:
+          y = ref(comp, d['src'], d['ssuf'])
+          stm.append([f'    connect( {x}, {y} )'] if rng.random() < 0.5 else [f'    {x} //= {y}'] if p['suf'].count('.') == 0 else [f'    connect( {y}, {x} )'])
+    for r in readers:
+      if r['comp'] != comp: continue
+      x = ref(comp, r['sig'], r['suf'])
+      decl = f"    s.{r['out']} = OutPort( {tname(r['typ'])} )"
+      if r['kind'] == 'net': stm.append([decl, f"    s.{r['out']} //= {x}"])
+      elif r['kind'] == 'blk': stm.append([decl, '    @update', f"    def {r['blk']}():", f"      s.{r['out']} @= {x}"])
+      else: stm.append([decl, '    @update_ff', f"    def {r['blk']}():", f"      s.{r['out']} <<= {x}"])
+    rng.shuffle(stm)
+    return L + [l for g in stm for l in g]
+  out = [CN_TYPES.format(u=u)]
+  if has_child:
+    out += [f'class CnC{u}( Component ):', '  def construct( s ):', '    s.in_ = InPort( 16 )'] + body('C') + ['    pass', '']
+  out += [f'class CnT{u}( Component ):', '  def construct( s ):', '    s.in_ = InPort( 16 )'] + body('T') + ['    pass', '']
+  spec = {'u': u, 'sigs': sigs, 'readers': readers}
+  return '\n'.join(out), f'CnT{u}', spec
+
+def cn_reference(spec, v):
+  """packed value of every subject signal and the value every reader's output port shows once every block has run
+  after its writers, for in_ = v"""
+  val = {}
+  for sg in spec['sigs']:
+    x = 0
+    for p in sg['pieces']:
+      d, m = p['drv'], (1 << (p['hi'] - p['lo'])) - 1
+      if not d: continue
+      if d['kind'] == 'const': y = d['value']
+      elif d['kind'] == 'comp': y = (v >> d['k']) & m
+      else: y = (val[d['src']] >> d['slo']) & m
+      x |= y << p['lo']
+    val[sg['key']] = x
+  outs = {}
+  for r in spec['readers']:
+    path = ('c.' if r['comp'] == 'C' else '') + r['out']
+    outs[path] = (r['kind'], (val[r['sig']] >> r['lo']) & ((1 << (r['hi'] - r['lo'])) - 1))
+  return val, outs
+
+def cn_pairs(spec):
+  """from the design description only: (constant net, reader) pairs that share a bit.  A reader is an update block or a
+  net block (a net reader, or the net that drives a part of another signal) - ff readers run in the ff phase."""
+  consts, rds = [], []
+  for sg in spec['sigs']:
+    for p in sg['pieces']:
+      d = p['drv']
+      if d and d['kind'] == 'const': consts.append(dict(cid=d['cid'], sig=sg['key'], suf=p['suf'], lo=p['lo'], hi=p['hi'], typ=p['typ'], value=d['value']))
+      if d and d['kind'] == 'net': rds.append(dict(rid=d['rid'], kind='net', sig=d['src'], suf=d['ssuf'], lo=d['slo'], hi=d['shi']))
+  for r in spec['readers']:
+    if r['kind'] != 'ff': rds.append(dict(rid=r['rid'], kind=r['kind'], sig=r['sig'], suf=r['suf'], lo=r['lo'], hi=r['hi'], blk=r['blk']))
+  pairs = [(c['cid'], r['rid']) for c in consts for r in rds if c['sig'] == r['sig'] and c['lo'] < r['hi'] and r['lo'] < c['hi']]
+  return consts, rds, pairs
+
+def cn_norm(s): return s.replace(' ', '').lower()
+
+def cn_locate(top, mod, spec, consts, rds, reprs):
+  """the real block functions, found by generated name / source name only (no metadata of the pass): constant net block =
+  the generated block whose source name is `Net (writer is <repr of the constant>` (the constants of a design are
+  pairwise distinct); reader update block by function name; reader net block by `Net (writer is <repr of the read part>`"""
+  from pymtl3.datatypes import mk_bits
+  u = spec['u']
+  gen = {}
+  for b in top._dag.final_upblks:
+    fn = b.__code__.co_filename
+    if fn.startswith('Net (writer is '): gen.setdefault(cn_norm(fn), []).append(b)
+  named = {}
+  for b in top._dag.final_upblks:
+    if not b.__code__.co_filename.startswith('Net (writer is '): named.setdefault(b.__name__, []).append(b)
+  cblk, rblk = {}, {}
+  for c in consts:
+    val = getattr(mod, f'CnIn{u}')(c['value'] >> 2, c['value'] & 3) if c['typ'] == 'In' else mk_bits(c['hi'] - c['lo'])(c['value'])
+    bs = gen.get(cn_norm(f'Net (writer is {val!r}'), [])
+    if len(bs) > 1: raise InfraError(f'constnet: {len(bs)} generated blocks for the constant {val!r}')
+    cblk[c['cid']] = bs[0] if bs else None
+  for r in rds:
+    bs = named.get(r['blk'], []) if r['kind'] == 'blk' else gen.get(cn_norm(f"Net (writer is {reprs[r['rid']]}"), [])
+    if len(bs) != 1: raise InfraError(f"constnet: {len(bs)} blocks for reader {r['rid']} ({r['kind']} of {r['sig']}{r['suf']})")
+    rblk[r['rid']] = bs[0]
+  return cblk, rblk
+
+def check_const(ck, src, clsname, spec, lines, metas, modes, verbose=False, fixed_ins=None):
+  """family (g): model side like every other family, except that the objects written by the constant net blocks are
+  taken from the design description (Extract fix_writes); direct oracle independent of the pass's metadata on the real
+  schedule, the run-time call order and the simulated values of every pass group"""
+  import types
+  mod = load_source(ck.workdir, src, 'constnet')
+  case = {'gendag': True, 'family': 'constnet', 'top': clsname, 'source': src, 'constnet': spec}
+  consts, rds, pairs = cn_pairs(spec)
+  bad = 0
+  try:
+    cls = getattr(mod, clsname)
+    top = cls()
+    try: top.elaborate()
+    except Exception as e:
+      ck.hist('gendag_rejected', 'constnet')
+      if verbose: print('elaboration raised', type(e).__name__, str(e)[:300])
+      return 'rejected'
+    key2path = lambda key, suf: 's.' + key + suf
+    reprs = {r['rid']: repr(eval(key2path(r['sig'], r['suf']), {'s': top})) for r in rds}
+    described = {}
+    def fix_writes(t):
+      cblk, _ = cn_locate(t, mod, spec, consts, rds, reprs)
+      out = {}
+      for c in consts:
+        if cblk[c['cid']] is None: raise InfraError(f"constnet: no generated block for the constant net of {c['sig']}{c['suf']}")
+        out[cblk[c['cid']]] = [eval(key2path(c['sig'], c['suf']), {'s': t})]
+      described.update(out)
+      return out
+    ex = Extract(top, fix_writes=fix_writes)
+    got_w = {b.__name__ + '@' + repr(o[0]): sorted(map(repr, top._dag.genblk_writes.get(b, []))) for b, o in described.items()}
+    want_w = {b.__name__ + '@' + repr(o[0]): sorted(map(repr, o)) for b, o in described.items()}
+    if got_w != want_w:
+      bad = 1
+      ck.disagreement('described writes of the constant net blocks≈genblk_writes', case, want_w, got_w)
+    lines.append(ex.request()); metas.append((ex, case, 'constnet'))
+    stub = types.SimpleNamespace(blocks=[], nets={})
+    cdesc = {c['cid']: f"{c['sig']}{c['suf']} //= {c['value']:#x}" for c in consts}
+    rdesc = {r['rid']: (r.get('blk') or 'net') + f" reads {r['sig']}{r['suf']}" for r in rds}
+    for flow in HIER_FLOWS:
+      for mode in modes[flow]:
+        rs = rtlgen.RealSim(cls, stub, flow)
+        t = rs.top
+        blks = list(t._dag.final_upblks)
+        rs.blk2id = {b: i for i, b in enumerate(blks)}; rs.unknown = []
+        entries = rs.schedule_entries()
+        if any(e[0] != 'b' for e in entries): raise InfraError(f'constnet: unexpected schedule entries {entries}')
+        order = [e[1] for e in entries]
+        cblk, rblk = cn_locate(t, mod, spec, consts, rds, reprs)
+        label = lambda i: blks[i].__name__ + ' <' + blks[i].__code__.co_filename + '>' if blks[i].__code__.co_filename.startswith('Net') else blks[i].__name__
+        # (ii) run-time order of the very first evaluation, (iii) its values
+        code2id = {b.__code__: i for b, i in rs.blk2id.items()}
+        if len(code2id) != len(blks): raise InfraError('constnet: two blocks share a code object')
+        calls = []
+        def prof(frame, event, arg):
+          if event == 'call':
+            i = code2id.get(frame.f_code)
+            if i is not None: calls.append(i)
+        vals = []
+        ins = list(fixed_ins) if fixed_ins else [ck.rng.getrandbits(16) | 1, ck.rng.getrandbits(16)]
+        for step, v in enumerate(ins):
+          t.in_ @= v
+          if step == 0: sys.setprofile(prof)
+          try: (t.sim_eval_combinational if mode == 'eval' else t.sim_tick)()
+          finally: sys.setprofile(None)
+          _, outs = cn_reference(spec, v)
+          got, want = {}, {}
+          for path, (kind, w) in outs.items():
+            if kind == 'ff' and mode == 'eval': continue
+            got[path] = int(eval('s.' + path, {'s': t}).to_bits()); want[path] = w
+          vals.append((step, v, got, want))
+        for name, seq in (('schedule', order), ('run-time', calls)):
+          pos = {}
+          for k, i in enumerate(seq): pos.setdefault(i, k)
+          viol = []
+          for (cid, rid) in pairs:
+            cb, rb = cblk[cid], rblk[rid]
+            if cb is None: continue
+            a, b = rs.blk2id[cb], rs.blk2id[rb]
+            if name == 'run-time' and (a not in pos or b not in pos): continue
+            if a not in pos or b not in pos or not pos[a] < pos[b]:
+              viol.append({'constant_net': cdesc[cid], 'its_block_position': pos.get(a), 'reader': rdesc[rid], 'reader_position': pos.get(b)})
+          if verbose: print(f'{flow:8s} {mode:4s} {name:8s}:', [label(i) for i in seq], '->', len(viol), 'pairs out of order')
+          if viol:
+            bad = 1
+            ck.violation('constant-net-after-reader', {'flow': flow, 'where': name}, dict(case, flow=flow, mode=mode, ins=ins),
+                         {'order': [label(i) for i in seq], 'violated': viol[:8], 'n_violated': len(viol),
+                          'oracle': 'the net block that copies a constant into a part of a signal is placed / runs before every update block and net block that reads a bit of that part (pairs derived from the design description)'})
+        for (step, v, got, want) in vals:
+          if verbose: print(f'{flow:8s} {mode:4s} in_={v:#06x}:', 'values as expected' if got == want else {k: (got[k], want[k]) for k in got if got[k] != want[k]})
+          if got != want:
+            bad = 1
+            ck.violation('constant-net-first-evaluation-value', {'flow': flow, 'mode': mode}, dict(case, flow=flow, mode=mode, ins=ins),
+                         {'step': step, 'in_': v, 'got_vs_expected': {k: [got[k], want[k]] for k in got if got[k] != want[k]},
+                          'oracle': f'no reset; in_ set, then one {"sim_eval_combinational()" if mode == "eval" else "sim_tick()"} per step: every reader output = the read bits of the signal assembled from its constant / computed / net-driven parts'})
+            break
+        missing = [cdesc[c] for c in cblk if cblk[c] is None]
+        if missing and not bad: raise InfraError(f'constnet: no generated block found for {missing}')
+        ck.hist('gendag_constnet_mode', f'{flow}/{mode}')
+    ck.hist('gendag_constnet_consts', min(len(consts), 8)); ck.hist('gendag_constnet_pairs', min(len(pairs), 16))
+    for c in consts:
+      ck.hist('gendag_constnet_part', 'struct' if c['typ'] == 'In' else ('nested-' if c['suf'].count('.') == 2 else 'field-' if '.' in c['suf'] else '') +
+              ('bit' if c['hi'] - c['lo'] == 1 and '[' in c['suf'] else 'slice' if '[' in c['suf'] else 'whole-field'))
+      ck.hist('gendag_constnet_host', 'child-inport-from-parent' if c['sig'].startswith('c.ci') else 'child' if c['sig'].startswith('c.') else 'top')
+    for (cid, rid) in pairs:
+      c = next(x for x in consts if x['cid'] == cid); r = next(x for x in rds if x['rid'] == rid)
+      rel = 'whole' if r['suf'] == '' else 'same' if (r['lo'], r['hi']) == (c['lo'], c['hi']) else 'contains' if r['lo'] <= c['lo'] and c['hi'] <= r['hi'] else \
+            'inside' if c['lo'] <= r['lo'] and r['hi'] <= c['hi'] else 'partial'
+      ck.hist('gendag_constnet_reader', f"{r['kind']}/{rel}")
+  finally:
+    sys.modules.pop(mod.__name__, None)
+  return bad
+
 # ---------------------------------------------------------------------------------------------
 # one design: elaborate, extract, oracle, model
 # ---------------------------------------------------------------------------------------------
@@ -703,6 +1066,14 @@ def run(ck):
   for _ in range(25 if quick else 300):
     src, cls, spec = gen_hier(rng)
     check_hier(ck, src, cls, spec, lines, metas)
+  # (g) constants tied to parts of signals
+  ncn, cn_rej = (32 if quick else 400), 0
+  for _ in range(ncn):
+    src, cls, spec = gen_const(rng)
+    modes = {flow: [rng.choice(CN_MODES)] for flow in HIER_FLOWS}
+    if check_const(ck, src, cls, spec, lines, metas, modes) == 'rejected': cn_rej += 1
+  if cn_rej * 4 > ncn: raise InfraError(f'c02_gendag: {cn_rej} of {ncn} constant-net designs do not elaborate')
+  ck.extra_cov['gendag_constnet_rejected_at_elaboration'] = cn_rej
   for fam in {f for (_, _, f) in todo}:
     tot = sum(1 for (_, _, f) in todo if f == fam)
     if tot >= 5 and len(rejected.get(fam, [])) * 2 > tot and fam != 'shape':
@@ -723,6 +1094,16 @@ def replay(ck, data):
   src, cls = case.get('source'), case.get('top')
   if not src or not cls:
     print('no source recorded in this replay'); return 1
+  if case.get('constnet'):
+    lines, metas = [], []
+    n0 = len(ck.violations) + len(ck.breaks)
+    bad = check_const(ck, src, cls, case['constnet'], lines, metas, {flow: list(CN_MODES) for flow in HIER_FLOWS}, verbose=True, fixed_ins=case.get('ins'))
+    if bad == 'rejected': return 1
+    if metas:
+      ex, c, fam = metas[0]
+      if not evaluate(ck, ex, ck.drv('gendag').batch(lines)[0], c, fam): bad = 1
+    for v in ck.violations: print('VIOLATION', v.kind, v.signature, str(v.detail)[:900])
+    return 1 if (bad or len(ck.violations) + len(ck.breaks) > n0) else 0
   if case.get('hier'):
     lines, metas = [], []
     n0 = len(ck.violations) + len(ck.breaks)
